@@ -16,6 +16,12 @@ QL_KEY = 'specific_cloud_liquid_water_content'
 QI_KEY = 'specific_cloud_ice_water_content'
 
 
+def _rows(x):
+  """[levels, ...] array -> 2-D [levels, rest]; also for zero levels (sigma_dot of a one-layer column)."""
+  x = np.asarray(x)
+  return x.reshape(x.shape[0], int(np.prod(x.shape[1:])))
+
+
 def op_matrix(f, in_shape, out_size):
   """Matrix (out_size x in_size) of the linear map `f` acting on arrays [..., *in_shape]."""
   n_in = int(np.prod(in_shape))
@@ -66,7 +72,7 @@ class DynCfg:
   def col(self, x):
     """[levels, a, b] array -> matrix token (rows = levels)."""
     x = np.asarray(x)
-    return fmat(x.reshape(x.shape[0], -1))
+    return fmat(_rows(x))
 
   def tracers(self, tr):
     if not tr:
@@ -119,7 +125,7 @@ class DynCfg:
 
 def flat_state(s, sim_time=None):
   """Real `State`/`StateWithTime` -> dict of 2-D arrays comparable with `un_state`."""
-  f = lambda x: np.asarray(x).reshape(np.asarray(x).shape[0], -1)
+  f = _rows
   out = dict(vorticity=f(s.vorticity), divergence=f(s.divergence), temperature_variation=f(s.temperature_variation),
              log_surface_pressure=np.asarray(s.log_surface_pressure).ravel(),
              tracers={k: f(v) for k, v in s.tracers.items()})
@@ -130,7 +136,7 @@ def flat_state(s, sim_time=None):
 
 
 def flat_diag(a):
-  f = lambda x: np.asarray(x).reshape(np.asarray(x).shape[0], -1)
+  f = _rows
   return dict(vorticity=f(a.vorticity), divergence=f(a.divergence), temperature_variation=f(a.temperature_variation),
               u=f(a.cos_lat_u[0]), v=f(a.cos_lat_u[1]), sigma_dot_explicit=f(a.sigma_dot_explicit),
               sigma_dot_full=f(a.sigma_dot_full), gu=np.asarray(a.cos_lat_grad_log_sp[0]).ravel(),
